@@ -307,31 +307,29 @@ func policyFor(kind string, idx int) seccomp.Policy {
 	return seccomp.Policy{DefaultAction: seccomp.ActionAllow, Syscalls: []seccomp.SyscallGroup{{Action: seccomp.ActionErrno, NamesWithCondtions: []seccomp.NameWithConditions{cond(uint64(probeBase + idx))}}}}
 }
 
+// classify projects an error to nil / "err <errno name>" / "err OTHER". The message TEXT is never inspected:
+// only the syscall.Errno reachable through the %w chain, and only for the statistics of the evidence; the
+// verdicts of the checks use nothing but nil / non-nil.
 func classify(err error) string {
 	if err == nil {
 		return "nil"
 	}
-	msg := err.Error()
-	switch {
-	case strings.Contains(msg, "failed to assemble policy"):
-		return "err ASSEMBLE"
-	case strings.Contains(msg, "thread synchronization failed"):
-		return "err TSYNC"
-	case errors.Is(err, syscall.EINVAL):
-		return "err EINVAL"
-	case errors.Is(err, syscall.EACCES):
-		return "err EACCES"
-	case errors.Is(err, syscall.ENOMEM):
-		return "err ENOMEM"
-	case errors.Is(err, syscall.EFAULT):
-		return "err EFAULT"
-	case errors.Is(err, syscall.ESRCH):
-		return "err ESRCH"
-	case errors.Is(err, syscall.EBUSY):
-		return "err EBUSY"
-	}
 	var en syscall.Errno
 	if errors.As(err, &en) {
+		switch en {
+		case syscall.EINVAL:
+			return "err EINVAL"
+		case syscall.EACCES:
+			return "err EACCES"
+		case syscall.ENOMEM:
+			return "err ENOMEM"
+		case syscall.EFAULT:
+			return "err EFAULT"
+		case syscall.ESRCH:
+			return "err ESRCH"
+		case syscall.EBUSY:
+			return "err EBUSY"
+		}
 		return fmt.Sprintf("err E%d", int(en))
 	}
 	return "err OTHER"
